@@ -342,8 +342,10 @@ int main(void)
 {
 	static char line[1 << 21];
 	static char *tok[16 + 12 * MAXHOST];
-	char dir[] = "/tmp/h_starttlsr.XXXXXX";
+	char dir[4200];
 	const char *ca = getenv("H_CA_PEM");
+	const char *scratch = getenv("H_SCRATCH");	/* the runner's scratch directory: removed with it whatever happens here */
+	snprintf(dir, sizeof(dir), "%s/h_starttlsr.XXXXXX", (scratch && strlen(scratch) < 4000) ? scratch : "/tmp");
 	char cabuf[4096];
 	setvbuf(stdout, NULL, _IONBF, 0);
 	signal(SIGPIPE, SIG_IGN);
